@@ -811,3 +811,33 @@ func fieldID(st *types.Struct, i int) int {
 	fieldIDs[k] = id
 	return id
 }
+
+
+// leafFieldPaths lists, for every leaf of t, the chain of fld() indices from the value's address
+// down to the leaf, with the leaf sort. ok=false when the layout contains arrays (no fld chain).
+type fieldPath struct {
+	idx  []int
+	sort string
+}
+
+func leafFieldPaths(t types.Type, prefix []int, out []fieldPath) ([]fieldPath, bool) {
+	cp := func(extra ...int) []int { return append(append([]int{}, prefix...), extra...) }
+	switch kindOf(t) {
+	case kLeaf:
+		return append(out, fieldPath{cp(), leafSort(t)}), true
+	case kStruct:
+		st := t.Underlying().(*types.Struct)
+		ok := true
+		for i := 0; i < st.NumFields(); i++ {
+			var o bool
+			out, o = leafFieldPaths(st.Field(i).Type(), cp(fieldID(st, i)), out)
+			ok = ok && o
+		}
+		return out, ok
+	case kSlice:
+		return append(out, fieldPath{cp(1), SPtr}, fieldPath{cp(2), SInt}, fieldPath{cp(3), SInt}, fieldPath{cp(4), SInt}), true
+	case kIface:
+		return append(out, fieldPath{cp(5), SInt}, fieldPath{cp(6), SPtr}), true
+	}
+	return out, false
+}
